@@ -2,10 +2,13 @@
   CRC single-bit detection (for C05 `header_bitflip_rejected`): the reflected CRC register update is GF(2)-linear and a
   bit step never maps a non-zero register to zero when the polynomial has its top bit set, so flipping one bit of a
   message always changes the CRC.  Kernel proofs only, core Lean only.
+  (Lemmas/Crc.lean of C14 proves the same fact independently for its own `Crc.flipBit`; this file uses the
+  `List.modify` form of `flipBit`, which is the one the C05 driver executes and which commutes with take/drop.)
 -/
 import XzVerif.Lemmas.Crc
 import XzVerif.Model.Container
-namespace XzVerif.Crc
+namespace XzVerif.CrcFlip
+open XzVerif.Crc
 
 theorem step1_eq_zero {w : Nat} (P c : BitVec w) (hP : P.getLsbD (w - 1) = true) (h : step1 P c = 0) : c = 0 := by
   have hw : 0 < w := by
@@ -138,4 +141,4 @@ theorem crc32_flip_ne (m : List UInt8) (i : Nat) (hi : i < 8 * m.length) :
   intro h
   exact crc32Ref_flip_ne m i hi 0 (BitVec.eq_of_toNat_eq h)
 
-end XzVerif.Crc
+end XzVerif.CrcFlip
